@@ -227,7 +227,21 @@ def judgeCase (_k : Nat) (lines : List String) : Verdict := Id.run do
     vio := vio ++ [("C07.panic", s!"op{e.op.id}[{e.op.name}]-panicked")]
   -- ---- linearizability
   let budget := 400000
-  let (found, ss) := (search evs budget 0 0 st []).run {}
+  let (found0, ss0) := (search evs budget 0 0 st []).run {}
+  -- Statement-level interleavings (kind=interleave, forced by a repository double): an If-Match
+  -- write that loses the version race against an overlapping successful writer is REFUSED
+  -- (PreconditionFailed) even when the sequential specification would accept it in either order
+  -- (If-Match: * and an object on both sides). The property only says when an If-Match write may
+  -- succeed, so such a refusal is an effect-free call, like the offset-less append above.
+  let interleave := kvOf cfg "kind" == "interleave"
+  let lostRace (e : CEv) : Bool :=
+    interleave && e.op.im != "~" && !e.op.inm && e.obs.startsWith "err PreconditionFailed" &&
+    evs.toList.any fun f => f.op.id != e.op.id && f.op.g != 99 && f.inv < e.resp && e.inv < f.resp && f.obs.startsWith "ok"
+  let relaxed := evs.map fun e => if lostRace e then { e with op := { e.op with name := "nop" } } else e
+  let nLost := (evs.toList.filter lostRace).length
+  let useRelaxed := found0.isNone && ss0.nodes ≤ budget && nLost > 0
+  let (found, ss) := if useRelaxed then (search relaxed budget 0 0 st []).run {} else (found0, ss0)
+  if useRelaxed then evs := relaxed
   let mut linOk := false
   match found with
   | some order =>
@@ -340,6 +354,8 @@ def judgeCase (_k : Nat) (lines : List String) : Verdict := Id.run do
   let mut stats : List (String × Nat) := [("ops", conc.length), ("overlapping_pairs", overlaps), ("search_nodes", ss.nodes),
     ("linearizable", if linOk then 1 else 0), ("inm_winners", inmOk.length), ("if_match_successes", imOk.length),
     ("append_acks", acks.length), ("append_races_judged", appendJudged),
+    ("statement_interleavings", if interleave then 1 else 0),
+    ("if_match_refused_after_lost_version_race", if found0.isNone then nLost else 0),
     ("stack_" ++ kvOf cfg "stack", 1), ("ver_" ++ kvOf cfg "ver", 1), ("kind_" ++ kvOf cfg "kind", 1)]
   for i in conc do
     stats := addStats stats [("op_" ++ i.ev.op.name ++ (if i.ev.op.inm then "_inm" else if i.ev.op.im != "~" then "_im" else ""), 1),
